@@ -123,6 +123,12 @@ type vBed struct {
 	tagKeys      []string
 	// preWriteModel is set by C18 to the model before a write that races with a backup
 	preWriteModel map[vKey]vVal
+	// onExclude is called when the bed steers around a known finding
+	onExclude func(sig string)
+	// lingerOK holds series that may stay listed although empty (known finding
+	// series-lingers-after-piecewise-time-range-deletes), see applyDelete
+	lingerOK map[string]bool
+	extent   map[string][2]int64 // per "shard|series": min/max timestamp ever written since it was last empty
 }
 
 const vDB, vRP = "db", "rp"
@@ -272,6 +278,7 @@ func (b *vBed) applyWrite(shard uint64, pts []vPt) (dropped int) {
 			continue
 		}
 		s := p.series()
+		b.noteExtent(shard, s, p.TS)
 		for f, v := range p.Fields {
 			b.types[vTypeKey(shard, p.M, f)] = v.T
 			b.model[vKey{shard, s, f, p.TS}] = v
@@ -295,6 +302,17 @@ func (b *vBed) snapshot(shard uint64) error {
 	e, err := b.engine(shard)
 	if err != nil {
 		return err
+	}
+	// known finding (C09) keycursor-misorders-more-than-12-overlapping-blocks: reads over more than 12
+	// overlapping block locations of one key may return an older value. Histories of this bed keep the
+	// number of files below that by compacting first (excluded by construction, counted).
+	if len(b.tsmFiles(shard)) >= 10 {
+		if b.onExclude != nil {
+			b.onExclude("keycursor-misorders-more-than-12-overlapping-blocks")
+		}
+		if _, err := b.compact(shard, "forcefull"); err != nil {
+			return err
+		}
 	}
 	return e.WriteSnapshot()
 }
@@ -454,17 +472,57 @@ func (b *vBed) deleteSeries(sel vSel) error {
 // applyDelete removes the selection from the model and resets the field types of
 // measurements that lost their last point in a shard.
 func (b *vBed) applyDelete(sel vSel) (removed int) {
-	touched := map[string]bool{}
+	hit := map[string]bool{} // "shard|series" that lost points
 	for k := range b.model {
 		if sel.matchesSeries(k.Series) && sel.matchesTime(k.TS) {
 			delete(b.model, k)
 			removed++
-			name, _ := models.ParseKey([]byte(k.Series))
-			touched[fmt.Sprintf("%d#%s", k.Shard, name)] = true
+			hit[fmt.Sprintf("%d|%s", k.Shard, k.Series)] = true
 		}
+	}
+	// series emptied by this delete: if the delete's range does not span everything the series ever
+	// held, the engine may keep it listed (known finding series-lingers-after-piecewise-time-range-deletes)
+	left := map[string]bool{}
+	for k := range b.model {
+		left[fmt.Sprintf("%d|%s", k.Shard, k.Series)] = true
+	}
+	for sk := range hit {
+		if left[sk] {
+			continue
+		}
+		ext := b.extent[sk]
+		if (sel.HasMin && sel.Min > ext[0]) || (sel.HasMax && sel.Max < ext[1]) {
+			if b.lingerOK == nil {
+				b.lingerOK = map[string]bool{}
+			}
+			b.lingerOK[sk[strings.Index(sk, "|")+1:]] = true
+			if b.onExclude != nil {
+				b.onExclude("series-lingers-after-piecewise-time-range-deletes")
+			}
+		}
+		delete(b.extent, sk)
 	}
 	b.resetEmptyMeasurements()
 	return removed
+}
+
+func (b *vBed) noteExtent(shard uint64, series string, ts int64) {
+	if b.extent == nil {
+		b.extent = map[string][2]int64{}
+	}
+	sk := fmt.Sprintf("%d|%s", shard, series)
+	e, ok := b.extent[sk]
+	if !ok {
+		e = [2]int64{ts, ts}
+	}
+	if ts < e[0] {
+		e[0] = ts
+	}
+	if ts > e[1] {
+		e[1] = ts
+	}
+	b.extent[sk] = e
+	delete(b.lingerOK, series)
 }
 
 func (b *vBed) dropMeasurement(m string) error {
